@@ -448,6 +448,13 @@ def _errors(rc: RuleCtx):
                 fr.block(pre, env, TRUE)
             except Unsupported as e:
                 raise AnalysisError(f"evaluation.{name}: pre-loop code not modelled: {e}")
+            # "they vanish only when E is exactly the knee points": a zero returned in front of the matching under a *tolerance* test
+            # (np.allclose / np.isclose) is returned for sets that are close but not equal
+            for g_, v_ in fr.returns:
+                if g_sat(g_) and isinstance(v_, Rat) and v_.is_zero() and ("allclose" in repr(g_.key) or "isclose" in repr(g_.key)) and sname == STRATEGIES[0]:
+                    res.violation("S6", mod, fi.name, fi.node,
+                                  f"{name} returns 0 in front of the matching under a tolerance test (np.allclose / np.isclose): it vanishes for expected points that are near the knee points, not only for the knee points themselves",
+                                  _short(g_, 120), "an exact comparison, or no shortcut", construct=f"{name} tolerance shortcut")
             it_node = loop.iter
             if not isinstance(it_node, ast.Name):
                 nm_ = sorted({n.id for n in ast.walk(it_node) if isinstance(n, ast.Name) and n.id not in ("range", "len", "enumerate", "zip")})
